@@ -213,6 +213,10 @@ def check(run):
             replay_records(run, recs, 1, 1, 'mc-edge-2dom')
         with run.stage('b'):
             part_b(run, 400, 12)
+        with run.stage('wire'):
+            from . import c06
+            # in-range values only: what is judged here is which prepared value becomes visible, and when
+            c06.part_c(run, [(2, 2, [0, 1, 2, 3]), (1, 2, [0, 1])], 3, 3, strict=True)
     else:
         recs = mc_edge(run, 'e1', N=2, P=1, WD=2, shapes=['Reg', 'RegE', 'RegR', 'RegER', 'Not', 'And2'], rvs=[0, 3],
                        gated=False, invecs=[[0], [1], [2], [3]], cycles=3, mod=8)
@@ -227,6 +231,8 @@ def check(run):
                        invecs=[[0], [1]], cycles=2, maxn=2, mod=16)
         replay_records(run, recs, 1, 1, 'mc-edge-2dom')
         part_b(run, 6000, 30)
+        from . import c06
+        c06.part_c(run, [(2, 2, [0, 1, 2, 3]), (1, 2, [0, 1]), (3, 1, [0, 1, 5, 6, 7])], 3, 4, strict=True)
     run.assumptions += ['model data width 1-2 bits, netlists of 2-3 leaves exhaustively; larger designs by seeded random schedules',
                         'visit orders are imposed through the public attributes Simulator.clockDrivers / clockables',
                         'TLC explores every schedule; a random 1/EmitMod sample of the settled transitions is replayed on the code '
